@@ -232,10 +232,10 @@ func c08(c *Ctx) {
 
 	rd.closeCodeTable("C08.codes", false, true)
 	rd.sticky("C08.sticky")
-	c08defaults(c, rd)
+	c08defaults(c, rd, "C08.defaults")
 }
 
-func c08defaults(c *Ctx, rd *reader) {
+func c08defaults(c *Ctx, rd *reader, rule string) {
 	r := c.R
 	closeMsg, pongMsg := c.P.ConstInt("CloseMessage"), c.P.ConstInt("PongMessage")
 	fcm := c.fn("FormatCloseMessage")
@@ -248,7 +248,7 @@ func c08defaults(c *Ctx, rd *reader) {
 		fn := c.fn(s.name)
 		ok, why := true, "stores the given handler, or the default closure when it is nil"
 		var def *ssa.Function
-		c.explore("C08.defaults", fn, core.Opts{}, func(p *core.Path) {
+		c.explore(rule, fn, core.Opts{}, func(p *core.Path) {
 			if p.End != core.EndReturn {
 				return
 			}
@@ -274,17 +274,17 @@ func c08defaults(c *Ctx, rd *reader) {
 				}
 			}
 		})
-		r.Check("C08.defaults", s.name, "installs-handler-or-default", fn.Pos(), ok, why)
+		r.Check(rule, s.name, "installs-handler-or-default", fn.Pos(), ok, why)
 		// field written only by its setter
 		for _, st := range c.P.FieldStoreSites(s.field) {
-			r.Check("C08.defaults", shortFn(st.Parent()), "writer-of-"+s.field.Name(), st.Pos(), st.Parent() == fn, "handler field may only be written by its setter")
+			r.Check(rule, shortFn(st.Parent()), "writer-of-"+s.field.Name(), st.Pos(), st.Parent() == fn, "handler field may only be written by its setter")
 		}
 		if def == nil {
-			r.Fail("C08.defaults", s.name, "default-handler", fn.Pos(), "no default handler closure found")
+			r.Fail(rule, s.name, "default-handler", fn.Pos(), "no default handler closure found")
 			continue
 		}
 		okD, whyD := true, ""
-		c.explore("C08.defaults", def, core.Opts{}, func(p *core.Path) {
+		c.explore(rule, def, core.Opts{}, func(p *core.Path) {
 			if p.End != core.EndReturn || len(p.Results) != 1 {
 				return
 			}
@@ -337,13 +337,13 @@ func c08defaults(c *Ctx, rd *reader) {
 				}
 			}
 		})
-		r.Check("C08.defaults", shortFn(def), "default-handler-behaviour", def.Pos(), okD, whyD)
+		r.Check(rule, shortFn(def), "default-handler-behaviour", def.Pos(), okD, whyD)
 	}
 	// newConn calls the three setters with nil
 	{
 		nc := c.fn("newConn")
 		seen := map[string]bool{}
-		c.explore("C08.defaults", nc, core.Opts{}, func(p *core.Path) {
+		c.explore(rule, nc, core.Opts{}, func(p *core.Path) {
 			if p.End != core.EndReturn {
 				return
 			}
@@ -355,14 +355,14 @@ func c08defaults(c *Ctx, rd *reader) {
 			}
 		})
 		for _, n := range []string{"(*Conn).SetPingHandler", "(*Conn).SetPongHandler", "(*Conn).SetCloseHandler"} {
-			r.Check("C08.defaults", "newConn", "installs-default-via-"+n, nc.Pos(), seen[n], "newConn must install the default handler by calling the setter with nil")
+			r.Check(rule, "newConn", "installs-default-via-"+n, nc.Pos(), seen[n], "newConn must install the default handler by calling the setter with nil")
 		}
 	}
 	// FormatCloseMessage(code, ""): 2-byte big-endian code
 	{
 		ok, why := true, "FormatCloseMessage puts uint16(closeCode) big-endian first and copies the text after it; 1005 yields an empty payload"
 		n := 0
-		c.explore("C08.defaults", fcm, core.Opts{}, func(p *core.Path) {
+		c.explore(rule, fcm, core.Opts{}, func(p *core.Path) {
 			if p.End != core.EndReturn {
 				return
 			}
@@ -384,6 +384,6 @@ func c08defaults(c *Ctx, rd *reader) {
 				ok, why = false, "FormatCloseMessage does not encode the status code big-endian at the start of the payload"
 			}
 		})
-		r.Check("C08.defaults", shortFn(fcm), "status-code-encoding", fcm.Pos(), ok && n > 0, why)
+		r.Check(rule, shortFn(fcm), "status-code-encoding", fcm.Pos(), ok && n > 0, why)
 	}
 }
